@@ -1,4 +1,4 @@
-import H2V.Lemmas.ConnFidPLocal
+import H2V.Lemmas.ConnFidPExact
 /-
   C01 (stream layer) — message fidelity inside `proto/streams`: what the application submits on a stream
   reaches the codec (send side), and what the codec delivers reaches the application (receive side),
@@ -62,45 +62,29 @@ theorem accepting_a_frame_keeps_refinement (E A : List SFrame) (f : SFrame) (h :
 theorem send_data_queues_at_the_back_of_its_stream (s : Streams) (k len : Nat) (eos : Bool) :
     ∃ tr, Path (permSendData k len eos) s (s.refSendData k len eos).1 tr ∧
       (∀ j, wasCut j tr = false → sq (s.refSendData k len eos).1 j = sq s j ++ pushed j tr) ∧
-      (∀ j f, f ∈ pushed j tr → j = k ∧ f = .data len eos) := by
-  obtain ⟨tr, p, h1, h2, _⟩ := (refSendData_tr s k len eos).send_frames (fun h => h)
-  refine ⟨tr, p, h1, fun j f hf => ?_⟩
-  rcases h2 j f hf with h | ⟨_, h⟩
-  · exact h
-  · exact absurd h id
+      (∀ j f, f ∈ pushed j tr → j = k ∧ f = .data len eos) :=
+  refSendData_queues s k len eos
 
 /-- **`send_trailers` likewise**: only `HEADERS(END_STREAM, trailers)` at the back of entry `k`. -/
 theorem send_trailers_queues_at_the_back_of_its_stream (s : Streams) (k : Nat) (f : List Hpack.Field) :
     ∃ tr, Path (permSendHeaders k true f) s (s.refSendTrailers k f).1 tr ∧
       (∀ j, wasCut j tr = false → sq (s.refSendTrailers k f).1 j = sq s j ++ pushed j tr) ∧
-      (∀ j g, g ∈ pushed j tr → j = k ∧ g = .headers true f) := by
-  obtain ⟨tr, p, h1, h2, _⟩ := (refSendTrailers_tr s k f).send_frames (fun h => h)
-  refine ⟨tr, p, h1, fun j g hg => ?_⟩
-  rcases h2 j g hg with h | ⟨_, h⟩
-  · exact h
-  · exact absurd h id
+      (∀ j g, g ∈ pushed j tr → j = k ∧ g = .headers true f) :=
+  refSendTrailers_queues s k f
 
 /-- **`send_response` / `send_informational` likewise** (the head, 1xx heads before it). -/
 theorem send_response_queues_at_the_back_of_its_stream (s : Streams) (k : Nat) (f : List Hpack.Field) (eos : Bool) :
     ∃ tr, Path (permSendHeaders k eos f) s (s.refSendResponse k f eos).1 tr ∧
       (∀ j, wasCut j tr = false → sq (s.refSendResponse k f eos).1 j = sq s j ++ pushed j tr) ∧
-      (∀ j g, g ∈ pushed j tr → j = k ∧ g = .headers eos f) := by
-  obtain ⟨tr, p, h1, h2, _⟩ := (refSendResponse_tr s k f eos).send_frames (fun h => h)
-  refine ⟨tr, p, h1, fun j g hg => ?_⟩
-  rcases h2 j g hg with h | ⟨_, h⟩
-  · exact h
-  · exact absurd h id
+      (∀ j g, g ∈ pushed j tr → j = k ∧ g = .headers eos f) :=
+  refSendResponse_queues s k f eos
 
 /-- **`send_request`**: the only frame queued anywhere is the request head. -/
 theorem send_request_queues_only_its_head (s : Streams) (b : Bool) (f : List Hpack.Field) (eos : Bool) (p : Option Nat) :
     ∃ tr, Path (permSendRequest eos f) s (s.sendRequest b f eos p).1 tr ∧
       (∀ j, wasCut j tr = false → sq (s.sendRequest b f eos p).1 j = sq s j ++ pushed j tr) ∧
-      (∀ j g, g ∈ pushed j tr → g = .headers eos f) := by
-  obtain ⟨tr, pth, h1, h2, _⟩ := (sendRequest_tr s b f eos p).send_frames (fun h => h)
-  refine ⟨tr, pth, h1, fun j g hg => ?_⟩
-  rcases h2 j g hg with h | ⟨_, h⟩
-  · exact h
-  · exact absurd h id
+      (∀ j g, g ∈ pushed j tr → g = .headers eos f) :=
+  sendRequest_queues s b f eos p
 
 example : sq ((Conn.init {}).streams.sendRequest false [] false none).1 0 = [.headers false []] := by decide
 
@@ -110,18 +94,19 @@ example : sq ((Conn.init {}).streams.sendRequest false [] false none).1 0 = [.he
     of stream B's chunk" changes the queue or the in-flight marker of B and breaks this). -/
 theorem reset_discards_only_its_own_stream (s : Streams) (k : Nat) (r : Reason) :
     ∃ tr, Path (permReset k) s (s.refSendReset k r) tr ∧
-      ∀ j, j ≠ k → wasCut j tr = false → sq (s.refSendReset k r) j = sq s j := by
-  obtain ⟨tr, p, h1, h2, _⟩ := (refSendReset_tr s k r).send_frames (fun h => h)
-  refine ⟨tr, p, fun j hj hc => ?_⟩
-  have hp : pushed j tr = [] := by
-    cases hq : pushed j tr with
-    | nil => rfl
-    | cons f rest =>
-      have := h2 j f (by rw [hq]; exact List.mem_cons_self ..)
-      rcases this with h | ⟨_, h⟩
-      · exact absurd h id
-      · exact absurd h hj
-  rw [h1 j hc, hp, List.append_nil]
+      ∀ j, j ≠ k → wasCut j tr = false → sq (s.refSendReset k r) j = sq s j :=
+  refSendReset_queues s k r
+
+/-- **… and drops the DATA chunk sitting in the codec only if that chunk belongs to `k`**: the in-flight marker is
+    unchanged, or it named `k` and is now `Drop` (then `reclaim_frame` discards the remainder — of `k`'s own chunk). -/
+theorem reset_drops_only_its_own_chunk (s : Streams) (k : Nat) (r : Reason) :
+    marker (s.refSendReset k r) = marker s ∨ (marker s = .dataFrame k ∧ marker (s.refSendReset k r) = .drop) :=
+  refSendReset_marker s k r
+
+/-- the seeded defect, made explicit: a `clear_queue` that ignores the key of the marker drops the chunk of stream B
+    (key 1) when stream A (key 0) is reset; the model's does not -/
+example : marker (S1.sB.clearQueue 0) = .dataFrame 1 ∧ marker (S1.buggyClearQueue S1.sB 0) = .drop :=
+  S1.buggy_clear_queue_drops_other_streams_chunk_counterexample
 
 -- ===================================================================== receive side
 
@@ -147,15 +132,8 @@ theorem poll_data_answer_was_the_head (s : Streams) (k : Nat) (t : String) (p : 
 
 /-- the call takes events off entry `k` only, queues none, and touches no other receive queue -/
 theorem poll_data_touches_only_its_queue (s : Streams) (k : Nat) (t : String) :
-    ∃ tr, Path (permPoll k) s (s.refPollData k t).1 tr ∧ (∀ j, rcvd j tr = []) ∧ (∀ j, j ≠ k → dlvd j tr = []) := by
-  obtain ⟨tr, p, _, h2, h3⟩ := (refPollData_tr s k t).recv_events
-  refine ⟨tr, p, fun j => ?_, fun j hj => ?_⟩
-  · cases hq : rcvd j tr with
-    | nil => rfl
-    | cons e _ => exact absurd (h2 j e (by rw [hq]; exact List.mem_cons_self ..)) id
-  · cases hq : dlvd j tr with
-    | nil => rfl
-    | cons e _ => exact absurd (h3 j e (by rw [hq]; exact List.mem_cons_self ..)) hj
+    ∃ tr, Path (permPoll k) s (s.refPollData k t).1 tr ∧ (∀ j, rcvd j tr = []) ∧ (∀ j, j ≠ k → dlvd j tr = []) :=
+  refPollData_queues s k t
 
 /-- **A clean end of the body is reported only after END_STREAM.**  `poll_data` answers `None` only when the
     next queued event is not DATA (trailers — which only arrive with END_STREAM — or a head), or when the
@@ -203,6 +181,189 @@ theorem poll_trailers_fifo_and_clean_end (s : Streams) (k : Nat) (t : String) :
   ⟨fun f rest h => recvPollTrailers_head s k t f rest h, fun _ h => recvPollTrailers_trailers h,
    fun h => recvPollTrailers_none h⟩
 
+-- ===================================================================== send side: EVERY HISTORY
+
+/-  Vocabulary of the history theorems (H2V/Lemmas/ConnFidPInv.lean, ConnFidPHist.lean, ConnFidPMain.lean):
+    `ApiStep s w s' w'`  one operation of the connection task or of an application handle on the stream layer `s` and the
+                         codec `w`, with ARBITRARY arguments (46 constructors: the functions of `Streams` that ConnProto /
+                         ConnDriver call, `poll_complete` with the codec threaded through, and `codec`: anything the codec does
+                         that keeps the DATA frame it holds);  `Reach s w`: reached from a fresh stream layer by `ApiStep`s;
+    `Hist s w g`         the same with the ghost log `g` of the history: `g.acc k` = message frames (HEADERS, DATA, PUSH_PROMISE)
+                         queued on entry `k` ("accepted"; for each API call exactly its frame, see `AcceptDelta` below),
+                         `g.emi k` = frames / DATA chunks taken off the queue of `k` by `pop_frame` for the codec ("emitted"),
+                         `g.cut k` = the queue of `k` was cut (reset, error) or the entry removed,
+                         `g.weird` = a stream still WAITING TO BE OPENED was reset while a DATA chunk of it sat in the codec
+                         (impossible if `pending_open` streams are never in `pending_send`; that queue ↔ flag consistency held on
+                         ~900 k operations of the real code, ConnInv, but is proved by no lemma family — NOTES §3);
+    `held w`             the DATA frame the codec holds, `out s h k` = (unsent remainder of `k`'s chunk in the codec, if the
+                         in-flight marker says so) ++ `pending_send` of `k`, `msg` = without RST_STREAM.  -/
+
+/-- **Every reachable state is a history**: whatever the interleaving of peer frames, connection polls, codec
+    progress and application calls (with any arguments), the pair (stream layer, codec) it leads to carries a ghost
+    log for which the fidelity invariant below holds. -/
+theorem every_reachable_state_is_a_history (s : Streams) (w : Writer) (r : Reach s w) : ∃ g, Hist s w g :=
+  r.hist
+
+/-- non-vacuity: a request with a body, written out through `poll_complete`, then reset by the application -/
+example : Reach
+    (let s := ((Conn.init {}).streams.sendRequest false [] false none).1
+     let s := (s.refSendData 0 70000 true).1
+     let s := (Streams.pollComplete 8 s {} {} "c").1
+     s.refSendReset 0 8)
+    (let s := ((Conn.init {}).streams.sendRequest false [] false none).1
+     let s := (s.refSendData 0 70000 true).1
+     (Streams.pollComplete 8 s {} {} "c").2.1) :=
+  .step (.step (.step (.step (.init _ _ rfl rfl rfl) (.sendRequest _ _ false [] false none)) (.refSendData _ _ 0 70000 true))
+    (.pollComplete _ _ 8 {} "c")) (.refSendReset _ _ 0 8)
+
+/-- **SEND-SIDE FIDELITY, EVERY HISTORY.**  For every slab entry `k`:
+
+        emitted so far  ++  (remainder of its chunk in the codec ++ still queued)  ++  D     REFINES     accepted,
+
+    i.e. is the accepted frame sequence with DATA frames cut into consecutive pieces (lengths add up, END_STREAM only on
+    the last piece of the frame that carried it, HEADERS / trailers / PUSH_PROMISE in place).  `D`, the discarded part, is a
+    SUFFIX and is empty unless the stream was cut (reset / error) or removed: frames leave `pending_send` in FIFO order,
+    nothing is emitted twice, nothing is skipped, nothing is reordered — for every split into frames, every window /
+    frame-size configuration and every schedule. -/
+theorem send_fidelity_in_every_history (s : Streams) (w : Writer) (g : Ghost) (h : Hist s w g) (hw : g.weird = false) (k : Nat) :
+    ∃ D, Refine (g.emi k ++ msg (out s (held w) k) ++ D) (g.acc k) ∧ (g.cut k = false → D = []) :=
+  h.fidelity hw k
+
+/-- non-vacuity: a history (request head and a body frame accepted) whose `weird` flag is down -/
+example : ∃ g, Hist ((((Conn.init {}).streams.sendRequest false [] false none).1).refSendData 0 10 true).1 {} g ∧
+    g.weird = false := history_with_weird_down
+
+/-- **What the peer is sent on a stream is a prefix of what the application submitted**, octet-wise: same header
+    blocks, same DATA octet count between them, END_STREAM where it was — in particular a stream that is reset or cut
+    short only ever carries a prefix, and END_STREAM is never written before everything in front of it. -/
+theorem emitted_is_a_prefix_of_accepted (s : Streams) (w : Writer) (g : Ghost) (h : Hist s w g) (hw : g.weird = false) (k : Nat) :
+    EmitsPrefix (g.emi k) (g.acc k) ∧ toks (g.emi k) <+: toks (g.acc k) :=
+  h.emitted_prefix hw k
+
+/-- **Nothing accepted is lost while the stream is not closed**: for an entry that exists and is not `Closed`,
+    emitted ++ in flight ++ queued refines ALL of what was accepted (`D = []`).  (A queue is only ever cut on a closed
+    entry — `cut` steps check it — and `Closed` is absorbing.) -/
+theorem nothing_lost_while_stream_open (s : Streams) (w : Writer) (g : Ghost) (h : Hist s w g) (hw : g.weird = false)
+    (k : Nat) (a : Stream) (ha : s.store.get? k = some a) (hc : a.state.isClosed = false) :
+    Refine (g.emi k ++ msg (out s (held w) k)) (g.acc k) :=
+  h.nothing_lost_while_open hw k a ha hc
+
+/-- **What `send_data` adds to the accepted logs**: the history goes on, nothing is emitted by the call, and the accepted
+    log of every entry only grows — by `DATA(len, eos)` frames, on entry `k` only.  (A closed stream refuses the
+    call: that is why a frame is never accepted behind a discarded suffix.)  Likewise `send_trailers`, `send_response`,
+    `send_informational` (`Hist.refSendTrailers` …) and `send_request` (on the entry it creates). -/
+theorem send_data_extends_the_accepted_log (s : Streams) (w : Writer) (g : Ghost) (h : Hist s w g) (k len : Nat) (eos : Bool) :
+    ∃ g', Hist (s.refSendData k len eos).1 w g' ∧ AcceptDelta g g' (fun j f => j = k ∧ f = .data len eos) :=
+  h.refSendData k len eos
+
+theorem send_request_extends_the_accepted_log (s : Streams) (w : Writer) (g : Ghost) (h : Hist s w g)
+    (b : Bool) (f : List Hpack.Field) (eos : Bool) (p : Option Nat) :
+    ∃ g', Hist (s.sendRequest b f eos p).1 w g' ∧
+      AcceptDelta g g' (fun j x => j = s.store.nextKey ∧ x = .headers eos f) :=
+  h.sendRequest b f eos p
+
+/-- **The write loop keeps the invariant**: `Streams::poll_complete` — `poll_ready`, WINDOW_UPDATEs, `pop_pending_open`,
+    `pop_frame` (whose DATA chunk is `min(frame, max_frame_size, stream capacity)`), `buffer_out`, `reclaim_frame` (the
+    remainder goes back to the FRONT of the queue of ITS stream, or is dropped only if that stream was cut meanwhile),
+    `flush` — maps a history to a history, whatever the transport accepts and whenever it blocks. -/
+theorem poll_complete_keeps_history (s : Streams) (w : Writer) (n : Nat) (io : Tio) (t : String) (h : ∃ g, Hist s w g) :
+    ∃ g, Hist (Streams.pollComplete n s w io t).1 (Streams.pollComplete n s w io t).2.1 g :=
+  hist_pollComplete n s w io t h
+
+-- ===================================================================== exactly once
+
+/-- **`send_data`: `Ok` ⇒ exactly ONE frame was queued — `DATA(len, eos)`, at the back of the queue of `k` —, `Err` ⇒ none.**
+    `Once k f s s'`: `s'` is reached from `s` by silent steps and removals of released entries, then the single step
+    "append `f` to `pending_send` of `k`", then again silent steps and removals; `Tr permG`: silent steps and removals only.
+    (`Once.queues` spells out what that means for the queue of every entry.) -/
+theorem send_data_ok_queues_exactly_one_frame (s : Streams) (k len : Nat) (eos : Bool) :
+    (∀ u, (s.refSendData k len eos).2 = .ok u → Once k (.data len eos) s (s.refSendData k len eos).1) ∧
+    (∀ e, (s.refSendData k len eos).2 = .error e → Tr permG s (s.refSendData k len eos).1) :=
+  ⟨fun _ h => (refSendData_accR s k len eos).ok h, fun _ h => (refSendData_accR s k len eos).err h⟩
+
+example : ((((Conn.init {}).streams.sendRequest false [] false none).1).refSendData 0 10 true).2 = .ok () := by decide
+
+/-- **likewise `send_trailers`, `send_response`, `send_informational`** (their HEADERS frame) -/
+theorem send_headers_ok_queues_exactly_one_frame (s : Streams) (k : Nat) (f : List Hpack.Field) (eos : Bool) :
+    ((∀ u, (s.refSendTrailers k f).2 = .ok u → Once k (.headers true f) s (s.refSendTrailers k f).1) ∧
+     (∀ e, (s.refSendTrailers k f).2 = .error e → Tr permG s (s.refSendTrailers k f).1)) ∧
+    ((∀ u, (s.refSendResponse k f eos).2 = .ok u → Once k (.headers eos f) s (s.refSendResponse k f eos).1) ∧
+     (∀ e, (s.refSendResponse k f eos).2 = .error e → Tr permG s (s.refSendResponse k f eos).1)) ∧
+    ((∀ u, (s.refSendInformationalHeaders k f).2 = .ok u → Once k (.headers false f) s (s.refSendInformationalHeaders k f).1) ∧
+     (∀ e, (s.refSendInformationalHeaders k f).2 = .error e → Tr permG s (s.refSendInformationalHeaders k f).1)) :=
+  ⟨⟨fun _ h => (refSendTrailers_accR s k f).ok h, fun _ h => (refSendTrailers_accR s k f).err h⟩,
+   ⟨fun _ h => (refSendResponse_accR s k f eos).ok h, fun _ h => (refSendResponse_accR s k f eos).err h⟩,
+   ⟨fun _ h => (refSendInformationalHeaders_accR s k f).ok h, fun _ h => (refSendInformationalHeaders_accR s k f).err h⟩⟩
+
+/-- **`Recv::recv_data` queues the payload it was given — unmodified, with `is_budgeted = !eos` — at most once, at the
+    back of the receive queue of its stream; nothing when it fails** (a frame for a locally reset stream, or after the
+    `RecvStream` was dropped, is accounted for flow control and not queued: the `Tr permG` alternative). -/
+theorem recv_data_queues_its_payload_at_most_once (s : Streams) (k : Nat) (p : Bytes) (eos : Bool) (pad : Option Nat) :
+    (∀ u, (s.recvRecvData k p eos pad).2 = .ok u →
+      Tr permG s (s.recvRecvData k p eos pad).1 ∨ OnceR k (.data p (!eos)) s (s.recvRecvData k p eos pad).1) ∧
+    (∀ e, (s.recvRecvData k p eos pad).2 = .error e → Tr permG s (s.recvRecvData k p eos pad).1) :=
+  ⟨fun _ h => (recvRecvData_accRR s s k p eos pad (Tr.refl _ _)).ok h,
+   fun _ h => (recvRecvData_accRR s s k p eos pad (Tr.refl _ _)).err h⟩
+
+/-- **What `pop_frame` hands to the codec is what it took off the head of a queue.**  `pop_frame` is a run of pops (each
+    recorded in full in the emitted log), cuts of streams whose reset is scheduled, and removals; when it returns
+    `DATA(len, flag_eos, { key, rest, eos })`, the last frame recorded for `key` is `DATA(len + rest, eos)` — the whole queued
+    frame —, `flag_eos = eos` exactly when `rest = 0`, and `len ≤ max_len`; when it returns HEADERS / PUSH_PROMISE, that
+    frame (same END_STREAM flag, same fields) is the last frame recorded for its stream. -/
+theorem pop_frame_hands_out_what_it_took_off_the_queue (n m : Nat) (s : Streams) (g : Ghost) :
+    ∃ g', Run permPop s g (Streams.popFrame n s m).1 g' ∧ OutLast g' m (Streams.popFrame n s m).2 :=
+  popFrame_last2 n m s g
+
+/-- **Observation (by design, not covered by "exactly once"): `poll_response` discards interim 1xx heads still queued.**
+    An interim response is delivered by `poll_informational` only if that is polled before the final response is
+    taken (witness: `103` then `200` queued; after `poll_response` the `103` is gone). -/
+theorem interim_responses_need_poll_informational_first :
+    (O1.c3.stream 0).pendingRecv = [.informational [49, 48, 51] [], .headers [50, 48, 48] []] ∧
+    ((Streams.recvPollResponse 5 O1.c3 0 "p").1.stream 0).pendingRecv = [] :=
+  ⟨O1.both_queued, O1.interim_response_discarded_by_poll_response.1⟩
+
+/-- **A stream whose queue is drained has emitted everything it accepted — as the same message.**  In a history, for an
+    entry that was not cut, with nothing left in its queue and nothing of it in the codec: the emitted log refines the
+    accepted log, so the peer was sent the accepted header blocks, DATA octets and END_STREAM, all of them, in order. -/
+theorem drained_stream_has_emitted_everything (s : Streams) (w : Writer) (g : Ghost) (h : Hist s w g) (hw : g.weird = false)
+    (k : Nat) (hc : g.cut k = false) (ho : out s (held w) k = []) :
+    Refine (g.emi k) (g.acc k) ∧ toks (g.emi k) = toks (g.acc k) :=
+  h.drained hw k hc ho
+
+/-- **Errors never invent an END_STREAM.**  After the peer's RST_STREAM (any code), a connection error or the end of
+    the transport, the receive half of a stream counts as "ended with END_STREAM" exactly if it did before
+    (`State::recv_reset`, `handle_error`, `recv_eof`; H2V/Lemmas/CompState.lean) — together with
+    `clean_end_only_after_end_stream`: a body cut short by any of them is never reported as complete. -/
+theorem errors_never_invent_an_end_of_stream (x : State) (sid : Nat) (r : Reason) (q : Bool) (e : PErr) :
+    (x.recvReset sid r q).isRecvEndStream = x.isRecvEndStream ∧
+    (x.handleError e).isRecvEndStream = x.isRecvEndStream ∧
+    x.recvEof.isRecvEndStream = x.isRecvEndStream :=
+  ⟨H2V.Lemmas.Comp.recvReset_eos_iff x sid r q, H2V.Lemmas.Comp.handleError_eos_iff x e, H2V.Lemmas.Comp.recvEof_eos_iff x⟩
+
+/-- **RECEIVE-SIDE FIDELITY, EVERY REACHABLE STATE.**  Whatever the interleaving of peer frames, polls and application
+    calls that led to `(s, w)`: there is ONE label sequence `tr` explaining the whole history of the stream layer (every
+    `ApiStep` is a path of elementary steps; `rpush k e` = event `e` queued at the BACK of `pending_recv` of `k` — by
+    `recv_headers` / `recv_data` / `recv_trailers` / `recv_push_promise`, each its own event, `recv_data` at most once —,
+    `rpop k e` = event taken off its HEAD by a receive handle — what `poll_data` / `poll_trailers` answer with is that
+    head), and for every entry whose receive queue was never cleared (`clear_recv_buffer`: the `RecvStream` was
+    dropped) and that was not removed:   handed out so far ++ still queued = everything ever queued — exactly once,
+    unmodified, in arrival order. -/
+theorem received_events_are_delivered_in_order_in_every_history (s : Streams) (w : Writer) (r : Reach s w) :
+    ∃ s0 tr, Path permAll s0 s tr ∧ ∀ k, rlost k tr = false → dlvd k tr ++ rq s k = rcvd k tr :=
+  r.recv_ledger
+
+/-- **Exactly once, in the history: `send_data` answering `Ok` extends the accepted log of its stream by exactly
+    `[DATA(len, eos)]`** — not at all only when the key names no entry at that moment (a dangling handle; a stream with a
+    live handle is never removed, C08) —, touches no other accepted log and no emitted log, and the result is again a
+    history.  Likewise `send_trailers` and `send_response` (`Hist.refSendTrailers_exact`, `Hist.refSendResponse_exact`).
+    With `send_fidelity_in_every_history`: every accepted frame is emitted exactly once, as consecutive pieces, or discarded
+    with everything behind it when the stream is reset. -/
+theorem send_data_ok_extends_the_accepted_log_by_exactly_its_frame (s : Streams) (w : Writer) (g : Ghost) (h : Hist s w g)
+    (hw : g.weird = false) (k len : Nat) (eos : Bool) (u : Unit) (hr : (s.refSendData k len eos).2 = .ok u) :
+    ∃ g', Hist (s.refSendData k len eos).1 w g' ∧ g'.emi = g.emi ∧ (∀ j, j ≠ k → g'.acc j = g.acc j) ∧
+      (g'.acc k = g.acc k ++ [.data len eos] ∨ g'.acc k = g.acc k) :=
+  h.refSendData_exact hw k len eos u hr
+
 end H2V.Props.C01Streams
 
 #print axioms H2V.Props.C01Streams.splitting_carries_the_same_message
@@ -221,3 +382,20 @@ end H2V.Props.C01Streams
 #print axioms H2V.Props.C01Streams.clean_end_only_after_end_stream
 #print axioms H2V.Props.C01Streams.cut_short_is_an_error_not_an_end
 #print axioms H2V.Props.C01Streams.poll_trailers_fifo_and_clean_end
+#print axioms H2V.Props.C01Streams.every_reachable_state_is_a_history
+#print axioms H2V.Props.C01Streams.send_fidelity_in_every_history
+#print axioms H2V.Props.C01Streams.emitted_is_a_prefix_of_accepted
+#print axioms H2V.Props.C01Streams.nothing_lost_while_stream_open
+#print axioms H2V.Props.C01Streams.send_data_extends_the_accepted_log
+#print axioms H2V.Props.C01Streams.send_request_extends_the_accepted_log
+#print axioms H2V.Props.C01Streams.poll_complete_keeps_history
+#print axioms H2V.Props.C01Streams.send_data_ok_queues_exactly_one_frame
+#print axioms H2V.Props.C01Streams.send_headers_ok_queues_exactly_one_frame
+#print axioms H2V.Props.C01Streams.recv_data_queues_its_payload_at_most_once
+#print axioms H2V.Props.C01Streams.pop_frame_hands_out_what_it_took_off_the_queue
+#print axioms H2V.Props.C01Streams.interim_responses_need_poll_informational_first
+#print axioms H2V.Props.C01Streams.drained_stream_has_emitted_everything
+#print axioms H2V.Props.C01Streams.errors_never_invent_an_end_of_stream
+#print axioms H2V.Props.C01Streams.reset_drops_only_its_own_chunk
+#print axioms H2V.Props.C01Streams.received_events_are_delivered_in_order_in_every_history
+#print axioms H2V.Props.C01Streams.send_data_ok_extends_the_accepted_log_by_exactly_its_frame
